@@ -562,3 +562,132 @@ func (f *faultyFile) Truncate(size int64) error {
 	}
 	return f.FileReadWriter.Truncate(size)
 }
+
+// ---------------------------------------------------------------------------
+// Gate: parks one call of the base layer under the quota pool.
+
+// gateKind names the base call a gate parks.
+type gateKind int
+
+const (
+	gateNone           gateKind = iota
+	gateShrinkTruncate          // Truncate below the present size of the base file
+	gateGrowTruncate            // Truncate beyond the present size of the base file
+	gateGrowWrite               // WriteAt ending beyond the present size of the base file
+	gateNewFile                 // NewFile of the base pool
+	gateClose                   // Close of the base file
+	gateKinds
+)
+
+func (k gateKind) String() string {
+	return [...]string{"none", "shrink-truncate", "grow-truncate", "grow-write", "newfile", "close", "?"}[k]
+}
+
+// gate is owned by the driver. It is one-shot: the first base call of the
+// armed kind takes it, closes arrived (the handshake the driver waits for;
+// nothing ever sleeps) and blocks until the driver sends the verdict. Calls
+// that arrive later pass straight through.
+type gate struct {
+	kind    gateKind
+	short   bool          // a failing WriteAt stores the first half of the buffer
+	arrived chan struct{} // closed by the fake once the call is parked
+	verdict chan bool     // sent by the driver: true = the parked call fails
+}
+
+// gatedPool sits between the quota layer and the harness' base pool. A
+// parked call has had no effect yet; when released it is either forwarded
+// or fails: Truncate and NewFile without any effect, WriteAt after storing
+// nothing or a prefix, Close after closing the file.
+type gatedPool struct {
+	base pool.FilePool
+
+	mu    sync.Mutex
+	armed *gate
+}
+
+func (gp *gatedPool) arm(kind gateKind, short bool) *gate {
+	g := &gate{kind: kind, short: short, arrived: make(chan struct{}), verdict: make(chan bool)}
+	gp.mu.Lock()
+	gp.armed = g
+	gp.mu.Unlock()
+	return g
+}
+
+func (gp *gatedPool) disarm() {
+	gp.mu.Lock()
+	gp.armed = nil
+	gp.mu.Unlock()
+}
+
+// park blocks the calling base call if a gate for its kind is armed and
+// returns the gate and the verdict (nil if the call was not parked).
+func (gp *gatedPool) park(kind gateKind) (*gate, bool) {
+	gp.mu.Lock()
+	g := gp.armed
+	if g == nil || kind == gateNone || g.kind != kind {
+		gp.mu.Unlock()
+		return nil, false
+	}
+	gp.armed = nil
+	gp.mu.Unlock()
+	close(g.arrived)
+	return g, <-g.verdict
+}
+
+func (gp *gatedPool) NewFile(holeSource pool.HoleSource, size uint64) (filesystem.FileReadWriter, error) {
+	if g, fail := gp.park(gateNewFile); g != nil && fail {
+		return nil, errInjected
+	}
+	f, err := gp.base.NewFile(holeSource, size)
+	if err != nil {
+		return nil, err
+	}
+	return &gatedFile{FileReadWriter: f, gp: gp}, nil
+}
+
+type gatedFile struct {
+	filesystem.FileReadWriter
+	gp *gatedPool
+}
+
+func (f *gatedFile) Truncate(size int64) error {
+	kind := gateNone
+	if l, err := f.FileReadWriter.Len(); err == nil && size >= 0 {
+		if size < l {
+			kind = gateShrinkTruncate
+		} else if size > l {
+			kind = gateGrowTruncate
+		}
+	}
+	if g, fail := f.gp.park(kind); g != nil && fail {
+		return errInjected
+	}
+	return f.FileReadWriter.Truncate(size)
+}
+
+func (f *gatedFile) WriteAt(p []byte, off int64) (int, error) {
+	kind := gateNone
+	if l, err := f.FileReadWriter.Len(); err == nil && off >= 0 && off+int64(len(p)) > l {
+		kind = gateGrowWrite
+	}
+	if g, fail := f.gp.park(kind); g != nil && fail {
+		if g.short && len(p) > 1 {
+			n, err := f.FileReadWriter.WriteAt(p[:len(p)/2], off)
+			if err != nil {
+				return n, err
+			}
+			return n, errInjected
+		}
+		return 0, errInjected
+	}
+	return f.FileReadWriter.WriteAt(p, off)
+}
+
+func (f *gatedFile) Close() error {
+	g, fail := f.gp.park(gateClose)
+	err := f.FileReadWriter.Close()
+	if g != nil && fail && err == nil {
+		return errInjected
+	}
+	return err
+}
